@@ -421,8 +421,18 @@ def gen_c14_neighbours(tier, R, names):
     nums.append([num(x) for x in (1.0, 1.0000000000000002, 0.9999999999999999, 1.5, 1.4999999999999998, 2.5, -1.5)])
     texts = [[s(t) for t in ("abc", "abd", "ABC", "abc ", " abc", "abcc", "äbc")], [s(t) for t in ("10", "10.0", "1e1", " 10", "9")]]
     arrs = [[arr(num(1.0), num(2.0), num(3.0)), arr(num(1.0), num(2.0), num(4.0)), arr(num(1.0), s("2"), num(3.0)), arr(num(3.0), num(2.0), num(1.0)), arr(num(1.0), num(2.0))]]
-    fmts = [s("%H:%M:%S%.3f"), s("%Y-%m-%d %H:%M:%S"), s("%S%.f")]
+    # formats that succeed, and formats that fail only after part of the output was produced (state left behind by an error path shows in the NEXT call)
+    fmts = [s("%H:%M:%S%.3f"), s("%Y-%m-%d %H:%M:%S"), s("%S%.f"), s("%d.%m.%Y"), s("%Y-%Q"), s("%H:%M %z"), s("%Y%"), s("%Y-%m-%d %Z"), s("%Q"), s("x%")]
     ar = max_arity()
+    # failing calls in between: wrong kinds, out-of-range and malformed arguments for every function (errors must not leave anything behind either)
+    bad = [s("%Y-%Q"), s("("), s("2024-02-30"), num(NAN), num(-1.0), num(1e300), arr(), s("")]
+    for n in names:
+        k = ar.get(n, 0)
+        for a in bad:
+            for c in (bad[:4] if k >= 2 else []):
+                out.append(bi(1, n, [a, c]))
+            if k >= 1:
+                out.append(bi(1, n, [a]))
     for n in names:
         k = ar.get(n, 0)
         if k == 0:
